@@ -14,7 +14,7 @@
                                    0|1 = ignore_link_title; an event = arm of the match (0 Start with n = tag: 0 Paragraph 1 Link
                                    2 Heading 3 Item 4 TableCell 5 Emphasis 6 Strong 7 Strikethrough 8 CodeBlock 9 List 10 other;
                                    1 End(breaking) 2 End(other) 3 SoftBreak 4 HardBreak 5 Code/Math 6 Text 7 Html 8 other),
-                                   payload char count, byte range -> "K1|K0 O tok ..." (K = md_contractb of the stream)
+                                   payload char count, byte range -> "K1|K0 Z0|Z1|Z2|Z- O tok ..." (K = md_contractb of the stream, Z = md_doc_class of the vector)
      N <0|1> <cps> | code n rs re ...   Document::new(text, Markdown)   (document_markdown)
    token (output) = start,end,KIND with KIND one of
      W | P:<VariantName> | P:Quote:<twin|-> | P:Currency:<Name> | D | N:<f64 bits hex>:<radix>:<precision>:<Suffix|->
@@ -165,7 +165,13 @@ let () =
                   let ilt = (ilt = "1") in
                   if l.[0] = 'M' then begin
                     print_string (if md_contractb (encode text) evs then "K1 " else "K0 ");
-                    print_res (markdown_parse (uni_now ()) ilt text evs)
+                    let r = markdown_parse (uni_now ()) ilt text evs in
+                    (* Z = md_doc_class of the parser's vector (Model/C02Inert.v): 0 zero-width tokens are breaks,
+                       1 inert zero-width Newlines, 2 the remaining class *)
+                    (match r with
+                     | Ok ts -> Printf.printf "Z%d " (int_of_nat (md_doc_class ts))
+                     | _ -> print_string "Z- ");
+                    print_res r
                   end else print_res (document_markdown (uni_now ()) ilt text evs)
               | [] -> print_endline "?")
          | _ -> print_endline "?")
